@@ -231,8 +231,8 @@ def replay_emitted(rep, records, deviations_open, sample=None, seed=0, what='sce
     good = []
     for s, summ, c in zip(scns, sums, cases):
         if c.get('timeout'):
-            rep.violation('%s: the evaluation did not finish within %d s under its op budget (cost not bounded by the budget): %r' %
-                          (what, vmrun.SCENARIO_TIMEOUT_S, c.get('sources')), {'calls': c.get('sources')})
+            rep.violation('%s: the evaluation ran out of %s (guard: %d s) under its op budget - its cost is not bounded by the budget: %r' %
+                          (what, c.get('resource', 'time'), vmrun.SCENARIO_TIMEOUT_S, c.get('sources')), {'calls': c.get('sources')})
             continue
         if 'harness_error' in c:
             rep.machinery.append('replay harness error: ' + c['harness_error'])
@@ -370,8 +370,8 @@ def run_family(rep, scns, what='scenario'):
         for c in vmrun.run_scenarios(scns[start:start + 512], start_tid=start + 1):
             if c.get('timeout'):
                 ntimeout += 1
-                rep.violation('%s: the evaluation did not finish within %d s under its op budget (cost not bounded by the budget): %r' %
-                              (what, vmrun.SCENARIO_TIMEOUT_S, c.get('sources')), {'calls': c.get('sources')})
+                rep.violation('%s: the evaluation ran out of %s (guard: %d s) under its op budget - its cost is not bounded by the budget: %r' %
+                              (what, c.get('resource', 'time'), vmrun.SCENARIO_TIMEOUT_S, c.get('sources')), {'calls': c.get('sources')})
             elif 'harness_error' in c:
                 nerr += 1
                 if nerr <= 3:
